@@ -18,7 +18,7 @@ def sh(cmd, cwd=None, env=None, timeout=3600):
 
 
 def verify(pid, m):
-    wt, out = "/tmp/wt/%s" % pid, {"n": "/tmp/wt/out2_%s", "p": "/tmp/wt/out3_%s", "q": "/tmp/wt/out4_%s", "r": "/tmp/wt/out5_%s"}.get(m[0], "/tmp/wt/out_%s") % pid
+    wt, out = "/tmp/wt/%s" % pid, {"n": "/tmp/wt/out2_%s", "p": "/tmp/wt/out3_%s", "q": "/tmp/wt/out4_%s", "r": "/tmp/wt/out5_%s", "u": "/tmp/wt/out6_%s"}.get(m[0], "/tmp/wt/out_%s") % pid
     env = {"PYTHONPATH": wt + "/src"}
     rc, o = sh("git status --porcelain", cwd=wt)
     assert o.strip() == "", "worktree dirty: " + o
@@ -41,7 +41,7 @@ def verify(pid, m):
 
 
 def install(pid, m, res=None):
-    out = {"n": "/tmp/wt/out2_%s", "p": "/tmp/wt/out3_%s", "q": "/tmp/wt/out4_%s", "r": "/tmp/wt/out5_%s"}.get(m[0], "/tmp/wt/out_%s") % pid
+    out = {"n": "/tmp/wt/out2_%s", "p": "/tmp/wt/out3_%s", "q": "/tmp/wt/out4_%s", "r": "/tmp/wt/out5_%s", "u": "/tmp/wt/out6_%s"}.get(m[0], "/tmp/wt/out_%s") % pid
     d = os.path.join(V, "seeded", "%s-%s" % (pid, m))
     os.makedirs(d, exist_ok=True)
     shutil.copy("%s/%s.diff" % (out, m), d + "/patch.diff")
